@@ -15,7 +15,8 @@ import (
 
 type Row = map[string]any
 
-const baseTs int64 = 1700000040000 // ms; multiple of every size/slide used (250ms…60s, 3s, 5s); far from the 24 h future guard
+const baseTs int64 = 1699998300000 // ms; a multiple of 60 060 000 ms = lcm of every size/slide used (250ms…60s, 3s, 5s and the
+// non-round 700ms, 1.3s, 7s, 11s, 13s), so slots relative to baseTs coincide with epoch-aligned slots; far from the 24 h future guard
 
 // ---- typed values --------------------------------------------------------------------------
 
